@@ -5,11 +5,21 @@
 UNITS = {
     'quorum': {'template': 'units/quorum/unit.rs', 'serves': ['C03', 'C06', 'C09'], 'min_verified': 30},
     'finality': {'template': 'units/finality/unit.rs', 'serves': ['C08'], 'min_verified': 30},
+    'merkle': {'template': 'units/merkle/unit.rs', 'serves': ['C15'], 'min_verified': 45},
     'slot_state': {'template': 'units/slot_state/unit.rs', 'serves': ['C03', 'C04', 'C06'], 'min_verified': 88},
 }
 
 # property -> what decides it
 PROPS = {
+}
+
+KANI = {
+    'C15': [
+        {'name': 'kani_merkle_overlong_proof_rejected', 'kind': 'complete', 'timeout': 300,
+         'target': 'src/crypto/merkle.rs check_hash_proof / check_hash_proof_last (proof of 33 elements, any index / leaf / root; hash_all stubbed)'},
+        {'name': 'kani_merkle_index_beyond_width_rejected', 'kind': 'bounded', 'bound': 'proof length <= 3 (unwind 5), hash_all stubbed', 'timeout': 300,
+         'target': 'src/crypto/merkle.rs check_hash_proof / check_hash_proof_last'},
+    ],
 }
 
 for _u, _d in UNITS.items():
@@ -21,3 +31,6 @@ DESIGN_REF = {
     'C10': '5.10', 'C11': '5.11', 'C12': '5.12', 'C13': '5.13', 'C14': '5.14', 'C15': '5.15',
     'C16': '5.16', 'C17': '5.17', 'C18': '5.18', 'C19': '5.19', 'C20': '5.20',
 }
+
+for _p, _hs in KANI.items():
+    PROPS.setdefault(_p, {'units': [], 'kani': []})['kani'] += _hs
